@@ -153,14 +153,16 @@ impl Check for C09 {
         let mut script = gen_script(s);
         if s.chance(1, 2) {
             let len = 8192u64;
-            script.muts.push(match s.weighted(&[3, 3, 2, 2, 2, 1, 2]) {
+            script.muts.push(match s.weighted(&[3, 3, 2, 2, 2, 1, 2, 2, 2]) {
                 0 => Mut::XmlMinEqMax { nth: s.below(8) as u16, all: s.flag() },
                 1 => Mut::XmlAttr { name: "recordCount".into(), nth: s.below(3) as u16, value: s.pick(&["18446744073709551615", "4294967296", "1000000", "65536"]).to_string() },
                 2 => Mut::Section { nth: s.below(2) as u8, field: 1 + s.below(3) as u8, value: *s.pick(&[u64::MAX, 1 << 40, len, 0]) },
                 3 => Mut::Packet { cloud: 0, nth: s.below(3) as u8, field: 2 + s.below(5) as u8, value: *s.pick(&[0u16, 3, 65535, 65531]) },
                 4 => Mut::XmlAttr { name: "length".into(), nth: s.below(4) as u16, value: s.pick(&["18446744073709551615", "1099511627776", "0"]).to_string() },
                 5 => Mut::XmlAddRecords { count: 3000 },
-                _ => Mut::XmlDeleteChildren { nth: s.below(12) as u16 },
+                6 => Mut::XmlDeleteChildren { nth: s.below(12) as u16 },
+                7 => Mut::PacketZeroStreams { cloud: s.below(2) as u8, nth: s.below(3) as u8 },
+                _ => Mut::BlobInflate { nth: s.below(4) as u8, length: *s.pick(&[9999u64, 1 << 20, 1 << 40]) },
             });
         }
         Case { script }
@@ -176,7 +178,7 @@ impl Check for C09 {
         };
         crate::kit::phase("code-under-test");
         let relevant = case.script.muts.iter().any(|m| {
-            matches!(m, Mut::XmlMinEqMax { .. } | Mut::XmlDeleteChildren { .. } | Mut::XmlAddRecords { .. } | Mut::XmlDeepNest { .. } | Mut::Section { .. } | Mut::Packet { .. } | Mut::BlobHeader { .. } | Mut::Header { .. })
+            matches!(m, Mut::XmlMinEqMax { .. } | Mut::PacketZeroStreams { .. } | Mut::BlobInflate { .. } | Mut::HeaderRel { .. } | Mut::XmlDeleteChildren { .. } | Mut::XmlAddRecords { .. } | Mut::XmlDeepNest { .. } | Mut::Section { .. } | Mut::Packet { .. } | Mut::BlobHeader { .. } | Mut::Header { .. })
                 || matches!(m, Mut::XmlAttr { name, .. } if name == "recordCount" || name == "length" || name == "fileOffset")
         });
         match drive(&bytes, &mut v) {
